@@ -11,6 +11,7 @@
   plus a heap-allocation monitor on the implementation.
 -/
 import Desync.Proofs.ArchiveProofs
+import Desync.Proofs.FormatWalkProofs
 import Desync.Properties.C04
 
 namespace Desync.C19
@@ -60,6 +61,51 @@ theorem truncated_payload_is_error (n : Nat) (s : St) (h : s.rest.length < n) :
   unfold takePayload
   have : ¬ n ≤ s.rest.length := by omega
   simp [this]
+
+/-! ### callers that do not read payloads to their end (`FormatDecoder.advance`) -/
+
+/-- a walk over any byte string with any reading behaviour of the caller never panics -/
+theorem format_walk_never_panics (b : Bytes) (takes : List Nat) (p : String) :
+    fmtWalk? b takes ≠ some (.panic p) :=
+  FDec.walk_nopanic _ _ _ _ p
+
+/-- the walk always ends (the fuel of the model's loop is never what stops it) -/
+theorem format_walk_ends (b : Bytes) (takes : List Nat) : fmtWalk? b takes ≠ none :=
+  FDec.walk_fuel_enough _ _ _ _ (Nat.lt_succ_self _)
+
+/-- **what the caller reads of the payloads does not matter**: the elements seen and the verdict
+    (clean end / which error) are those of the caller that reads nothing -/
+theorem walk_independent_of_reads (b : Bytes) (takes : List Nat) :
+    walkElems (fmtWalk? b takes) = walkElems (fmtWalk? b []) :=
+  FDec.walk_elems_independent _ _ _ _ _ rfl (format_walk_ends b [])
+
+/-- **a stream that ends inside a payload is malformed for every caller**: after `Next` has
+    returned a payload element whose bytes are not all there, the next `Next` fails with
+    `io.ErrUnexpectedEOF` — whether the caller read nothing, or read `k` bytes successfully
+    first; and a read that fails fails with the same error.  It is never a clean end. -/
+theorem stream_ending_inside_payload_is_error (d d1 : FDec) (sz : UInt64)
+    (h : d.next = .ok (some (.payload sz), d1)) (hshort : d1.st.rest.length < sz.toNat - 16)
+    (k : Nat) :
+    d1.next = .err .ueof ∧
+    (∀ b d2, d1.readPayload k = .ok (b, d2) → d2.next = .err .ueof) ∧
+    (∀ e, d1.readPayload k = .err e → e = .ueof) := by
+  have hadv : d1.adv = sz.toNat - 16 := FDec.next_adv h
+  have hn : d1.next = .err .ueof := by
+    unfold FDec.next
+    have : ¬ d1.adv ≤ d1.st.rest.length := by omega
+    simp only [this, if_false]
+  refine ⟨hn, ?_, ?_⟩
+  · intro b d2 hr
+    rw [FDec.readPayload_then_next hr]; exact hn
+  · intro e he
+    exact (FDec.readPayload_err he).1
+
+/-! non-vacuity: a payload element announcing 4 bytes followed by 1 byte: `Next` returns the
+    element, and the stream is short -/
+example : ∃ d1, (FDec.next ⟨⟨le64 20 ++ le64 Gen.CaFormatPayload ++ [7], 0⟩, 0⟩) =
+      .ok (some (.payload 20), d1) ∧ d1.st.rest.length < (20 : UInt64).toNat - 16 := by
+  refine ⟨⟨⟨[7], 0⟩, 4⟩, ?_, by decide⟩
+  rfl
 
 /-! non-vacuity: a 16-byte input with an undersized string element is rejected, not a panic -/
 example (r : Bytes) : decBody 16 Gen.CaFormatUser ⟨r, 0⟩ = .err .format := by
